@@ -288,6 +288,9 @@ func init() {
 						}
 					}
 				}
+				if r.chance(1, 6) {
+					g.do("scribblerows " + t)
+				}
 				viol = append(viol, checkObs(rt, g.do("obs "+t))...)
 			}
 			for pos, rr := range rt.rows {
@@ -427,6 +430,15 @@ func init() {
 					}
 				case 1, 2:
 					row := g.do("newrow")
+					if r.chance(1, 3) {
+						// a row the table made for the caller: still the caller's until AddRow, its errors its own
+						row = g.do("newrowsized " + t)
+						if r.chance(1, 2) {
+							e := newErr()
+							g.do("tadderr " + t + " " + e)
+							raised[-1] = append(raised[-1], e)
+						}
+					}
 					id := idOf(row)
 					if r.chance(1, 2) {
 						regFail("r:"+strconv.Itoa(id), r.pick(whens), r.pick([]string{"itself", "cell", "row"}))
@@ -550,6 +562,10 @@ func init() {
 			t := g.do("newtable")
 			ti := idOf(t)
 			item := g.strItem("v")
+			if c%2 == 1 {
+				// the item is itself a Cell carrying properties: they are its own, not the new cell's
+				item = g.item("cellp:" + item)
+			}
 			g.do("addheaders " + t + " " + joinC([]string{item, item}))
 			row1 := g.do("addrowitems " + t + " " + joinC([]string{item, item}))
 			det := g.do("newrow")
@@ -956,6 +972,9 @@ func init() {
 			}
 			var viol []string
 			before := snapshot(g, t)
+			if r.chance(1, 4) {
+				g.do("scribblerows " + t)
+			}
 			first := map[string]string{}
 			ws := map[string]string{}
 			rawDecor := ""
@@ -1011,6 +1030,10 @@ func init() {
 					style := kind
 					if kind == "text" {
 						name := r.pick(names)
+						if r.chance(1, 4) {
+							// a style nobody registered: refused every time, and the table none the wiser
+							name = r.pick([]string{"no-such-style", "texttable.bogus", "", "texttable."})
+						}
 						style = name
 						key = "text/" + name
 					}
@@ -1113,6 +1136,15 @@ func init() {
 					_, of := parseRes(g.do("cellobs " + row + " 0"))
 					if unhx(of["text"]) != t2 {
 						viol = append(viol, "updated cell does not show the new text")
+					}
+					// and on to a shorter text, often the empty one: no metric of the longer text survives
+					t3 := r.pick([]string{"", "", "\n", "x", "世", r.text(alphaLen, 1)})
+					g.do(fmt.Sprintf("mutate %s s=%s", it, hx(t3)))
+					g.do("update " + row + " 0")
+					_, of = parseRes(g.do("cellobs " + row + " 0"))
+					l3 := length.Lines(t3)
+					if of["h"] != strconv.Itoa(len(l3)) || of["w"] != strconv.Itoa(length.LongestLineCells(t3)) || len(listOf(of["lines"])) != len(l3) {
+						viol = append(viol, fmt.Sprintf("cell updated from %q to %q: Height %s, width %s, %d lines; the text has %d lines, longest %d cells", t2, t3, of["h"], of["w"], len(listOf(of["lines"])), len(l3), length.LongestLineCells(t3)))
 					}
 				}
 				id := g.strItem(s)
